@@ -118,6 +118,13 @@ CHECKS = {
              "text layers bound the header length. Environment stubs are listed in the evidence file."),
 }
 
+CHECKS["C20"] = dict(
+    technique="differential fork-on-branch symbolic execution: bare application vs the same application behind 1..3 identity / header-editing middlewares or view decorators on one path, outputs compared by z3; inner-call counter",
+    design_ref="DESIGN.md §4 C20",
+    note="Trusted: z3, CPython/asyncio (ASGI on the virtual loop, thread pool = direct call), forksym. Inner applications are a recipe list (every response "
+         "class, multi-chunk stream, 1-2 cookies, restart of start_response, raising app); status, a header value, cookie value and body bytes are symbolic "
+         "(<=2/<=3 chars); body sizes around the relay's 64 KiB block are enumerated. The ASGI relay's spool file is replaced by an in-memory buffer.")
+
 NOT_YET = {}  # pid -> reason (filled while the framework is being built)
 NOT_APPLICABLE = {}
 
